@@ -8,7 +8,8 @@ from ..core.origins import Origins
 CONFIGS = {'quick': ['A'], 'thorough': ['A', 'B', 'C', 'D']}
 LEVEL = 'other'
 TECHNIQUE = ('who-may-write query and arithmetic shape of the epoch counter, sibling comparison of the committer / receiver / joiner '
-             'pipelines by def-use wiring of their shared arguments, installation completeness of the new epoch')
+             'pipelines by def-use wiring of their shared arguments, installation completeness of the new epoch, exhaustiveness of the key '
+             'derivation loops of committer, receiver and joiner')
 EXPLANATION = ('EPOCH: GroupContext.epoch is written by exactly one function outside constructors and codec, as epoch + 1, and both '
                'commit paths take their new context from it. ONE-PIPELINE: committer (commit_internal), receiver (process_commit + '
                'update_key_schedule) and joiner (from_welcome_message) each run transcript hash -> key schedule -> confirmation tag -> '
